@@ -10,8 +10,8 @@ import (
 
 func init() {
 	register(&PropMeta{
-		ID:    "C20",
-		Level: "other",
+		ID:          "C20",
+		Level:       "other",
 		Explanation: "Decides on every CFG path of the observer runner that the user callback is reached only after the hand state of that same table was passed through AsObserver, unless system mode is on or the path establishes that there is no hand state (R1); that the engine adapter hands its actor, and keeps, the address of a local that was filled by json.Unmarshal from the incoming table's own JSON — never the incoming pointer (R2); and that nothing reachable from the observer runner calls a player action of the adapter (R3). NOT decided: what AsObserver hides (pinned dependency, trusted).",
 		Rules: map[string]string{
 			"R1": "filter-before-emit on every path where a hand state may exist and system mode is off",
